@@ -20,6 +20,10 @@ mod memory;
 mod options;
 mod sealed;
 
+#[cfg(rarena_verif)]
+#[doc(hidden)]
+pub mod verif;
+
 #[cfg(test)]
 #[macro_use]
 mod tests;
